@@ -290,7 +290,8 @@ PROPS["C09"] = dict(
          "the same work done alone in the same process; ThreadSanitizer reports nothing (TSan build) - the same cases also run "
          "in an uninstrumented build for the value oracle at full speed. Non-trivial = >= 2 threads split lists and (they use "
          "different separators or >= 2 threads register constraints); distinct by case hash.",
-    require_classes=dict(all=["mt.different_list_separators", "mt.concurrent_constraints", "mt.eight_or_more_threads", "mt.broken_line", "mt.usage_printed"]),
+    require_classes=dict(all=["mt.different_list_separators", "mt.concurrent_constraints", "mt.eight_or_more_threads", "mt.broken_line", "mt.usage_printed",
+                              "mt.environment_source", "mt.outcome_depends_on_cardinality"]),
     assumptions=DOMAIN_ASSUMPTIONS + ["handlers share no destination variables; only the argv source is used (files and environment are process-global)",
                                       "schedules are sampled, not enumerated; ThreadSanitizer generalises over races whose two accesses both execute in a run"],
     wall_cap=dict(quick=600, thorough=3600),
